@@ -266,6 +266,84 @@ def matrix_cases(v: str, ftable, full_pool: bool = False) -> list[tuple[str, str
     return out
 
 
+# ------------------------------------------------------------------------ collation matrix
+UCA = 'http://www.w3.org/2013/collation/UCA'
+COLLATIONS = [
+    'http://www.w3.org/2005/xpath-functions/collation/codepoint',
+    'http://www.w3.org/2005/xpath-functions/collation/html-ascii-case-insensitive',
+    UCA, UCA + '?lang=xx', UCA + '?lang=de', UCA + '?lang=it;fallback=yes', UCA + '?lang=xx;fallback=yes',
+    UCA + '?lang=xx;fallback=no', UCA + '?lang=de;fallback=no', UCA + '?lang=en;strength=primary', UCA + '?fallback=no',
+    UCA + '?fallback=yes', UCA + '?lang=', UCA + '?lang=en-US;fallback=yes', UCA + '?lang=zz_ZZ.UTF-8', UCA + '?', UCA + '?x=y',
+    UCA + '?lang=de;lang=xx', 'http://bogus/collation', 'en_US.UTF-8', 'C', 'POSIX', 'C.utf8', 'de_DE.UTF-8', 'it_IT', 'xx_YY',
+    'xx_YY.UTF-8', '', ' ', 'en_US.UTF-8@x', 'a b', 'collation', '\u00e9',
+]
+COLLATION_FORMS = [   # (min version, template: §A, §B operands, §C collation literal)
+    ('2.0', 'compare(§A, §B, §C)'), ('2.0', 'contains(§A, §B, §C)'), ('2.0', 'starts-with(§A, §B, §C)'), ('2.0', 'ends-with(§A, §B, §C)'),
+    ('2.0', 'substring-before(§A, §B, §C)'), ('2.0', 'substring-after(§A, §B, §C)'), ('2.0', 'index-of((§A, §B), §B, §C)'),
+    ('2.0', 'distinct-values((§A, §B), §C)'), ('2.0', 'deep-equal(§A, §B, §C)'), ('2.0', 'max((§A, §B), §C)'), ('2.0', 'min((§A, §B), §C)'),
+    ('3.1', 'sort((§A, §B), §C)'), ('3.1', 'sort((§A, §B), §C, function($x) { $x })'), ('3.1', 'contains-token(§A, §B, §C)'),
+    ('3.1', 'collation-key(§A, §C)'), ('3.0', 'for-each((§A, §B), compare(?, §B, §C))'), ('3.0', 'compare#3(§A, §B, §C)'),
+]
+DEFAULT_COLLATION_FORMS = ["compare(§A, §B)", "contains(§A, §B)", "index-of((§A, §B), §B)", "distinct-values((§A, §B))", "deep-equal(§A, §B)",
+                           "max((§A, §B))", "min((§A, §B))", "§A = §B", "§A lt §B", "(§A, §B) = (§B, §A)", "default-collation()",
+                           "starts-with(§A, §B)", "substring-before(§A, §B)"]
+DEFAULT_COLLATION_FORMS_31 = ["sort((§A, §B))", "contains-token(§A, §B)", "collation-key(§A)", "sort((§A, §B), ())"]
+
+
+def collation_cases(v: str) -> list[tuple[str, str, str | None]]:
+    """(source, tag, default_collation option or None): every collation URI x every collation-taking
+    function, with constant operands (static evaluation at parse time) and node operands (evaluation time);
+    and the same functions without collation argument under a `default_collation=` parser option"""
+    if v == '1.0':
+        return []
+    out = []
+    operands = [("'abc'", "'b'"), ('/a/b[1]', '/a/b[2]'), ('/a/c/@x', "'2'"), ('$s', '$s')]
+    for c in COLLATIONS:
+        lit = "'" + c.replace("'", "''") + "'"
+        for mv, form in COLLATION_FORMS:
+            if not vle(mv, v):
+                continue
+            for a, b in operands:
+                out.append((form.replace('§A', a).replace('§B', b).replace('§C', lit), 'collation-arg', None))
+        forms = DEFAULT_COLLATION_FORMS + (DEFAULT_COLLATION_FORMS_31 if v >= '3.1' else [])
+        for form in forms:
+            for a, b in operands[:3]:
+                out.append((form.replace('§A', a).replace('§B', b), 'collation-default', c))
+    return out
+
+
+# --------------------------------------------------------------------- name-operand matrix
+NAME_FORMS = ['abs', 'upper-case', 'foo', 'fn:abs', 'fn:uppercase', 'p:foo', 'p:abs', 'u:foo', 'math:pi', 'math:nothing',
+              'map:get', 'array:foo', 'xs:integer', 'xs:nothing', 'Q{http://www.w3.org/2005/xpath-functions}abs',
+              'Q{http://www.w3.org/2005/xpath-functions}nothing', 'Q{http://p}foo', 'Q{http://p}e', 'Q{}foo', 'Q{u}a',
+              'p:*', '*:abs', '*:e', '*', 'b', 'p:e', 'div', 'map', 'array', 'item', 'text', 'if', 'xml:lang', 'xmlns:p']
+NAME_CONSTRUCTS = [
+    ('3.1', '1 => §N()'), ('3.1', "'a' => §N()"), ('3.1', '(1, 2) => §N(1)'), ('3.1', '/a/b => §N()'), ('3.1', '1 => §N'),
+    ('3.1', '1 => §N(1) => §N()'), ('3.0', '§N#1'), ('3.0', '§N#0'), ('3.0', '§N#1(1)'), ('3.0', '§N#2(1, 2)'), ('3.0', 'function-name(§N#1)'),
+    ('1.0', '§N()'), ('1.0', '§N(1)'), ('1.0', '§N(1, 2)'), ('1.0', "§N('a')"), ('1.0', '§N(/a/b)'), ('1.0', '§N'), ('1.0', '/a/§N'),
+    ('1.0', 'child::§N'), ('1.0', '@§N'), ('1.0', 'attribute::§N'), ('1.0', 'self::§N'), ('1.0', '//§N/§N'), ('1.0', '/a/§N[1]'),
+    ('1.0', '§N/§N'), ('1.0', '§N:§N'), ('1.0', '$§N'), ('1.0', '§N + 1'), ('1.0', 'processing-instruction(§N)'),
+    ('2.0', 'element(§N)'), ('2.0', 'attribute(§N)'), ('2.0', 'element(*, §N)'), ('2.0', 'element(§N, §N)'), ('2.0', 'schema-element(§N)'),
+    ('2.0', 'document-node(element(§N))'), ('2.0', '1 instance of §N'), ('2.0', '1 cast as §N'), ('2.0', '1 castable as §N?'),
+    ('2.0', '1 treat as §N'), ('2.0', '1 instance of element(§N)'), ('2.0', 'for $§N in 1 return $§N'), ('2.0', 'some $§N in 1 satisfies $§N'),
+    ('2.0', 'resolve-QName("§N", /a)'), ('2.0', 'xs:QName("§N")'), ('2.0', 'QName("http://p", "§N")'),
+    ('3.0', 'let $§N := 1 return $§N'), ('3.0', 'function($x as §N) { 1 }'), ('3.0', 'function($x) as §N { 1 }(1)'),
+    ('3.0', 'function($§N) { $§N }(1)'), ('3.0', 'function-lookup(xs:QName("§N"), 1)'), ('3.0', '1 ! §N()'), ('3.0', '1 ! §N'),
+    ('3.0', '1 instance of function(§N) as §N'), ('3.0', 'for-each((1, 2), §N#1)'),
+    ('3.1', "map{'a': 1}?§N"), ('3.1', '[1]?§N'), ('3.1', '?§N'), ('3.1', "map{'§N': 1}?§N"), ('3.1', '1 instance of map(§N, §N)'),
+    ('3.1', '1 instance of array(§N)'), ('3.1', '§N => §N()'), ('3.1', "map{§N: 1}"), ('3.1', '[§N]'),
+]
+
+
+def name_cases(v: str) -> list[tuple[str, str]]:
+    """a small exhaustive matrix: every construct that takes a NAME operand x every name form"""
+    out = []
+    for mv, c in NAME_CONSTRUCTS:
+        if vle(mv, v):
+            for n in NAME_FORMS:
+                out.append((c.replace('§N', n), 'matrix-name'))
+    return out
+
 # ----------------------------------------------------------------------- magnitude matrices
 # extreme-magnitude numeric operands: as literals (static evaluation at parse time) and as variables
 MAG_LITERALS = [
